@@ -111,7 +111,8 @@ func getJSON(c *core.Ctx) *jsonModel {
 			continue
 		}
 		r := f.Signature.Results()
-		if r.Len() == 1 {
+		if r.Len() == 1 && byteParam(f) != nil {
+			// a scanner reads input: a method from an int to an int (a position helper) is not one
 			if b, ok := r.At(0).Type().Underlying().(*types.Basic); ok && b.Kind() == types.Int {
 				m.fam[f] = true
 				m.famList = append(m.famList, f)
